@@ -99,6 +99,18 @@ func (in *Interp) intrinsic(fn *ssa.Function) handler {
 			}
 		}
 	}
+	// sort.Slice and friends go through reflection: run the harness runtime's insertion sort instead
+	switch name {
+	case "sort.Slice", "sort.SliceStable":
+		for _, pkg := range in.Prog.AllPackages() {
+			if f := pkg.Func("vSortSlice"); f != nil && isVerifFile(in, f) {
+				repl := f
+				return func(in *Interp, st *State, fr *Frame, fn *ssa.Function, args []Value) Value {
+					panic(redirect{fn: repl, args: args})
+				}
+			}
+		}
+	}
 	// harness API: functions named v<Upper>... defined in a zz_verif file
 	if h, ok := harnessAPI[fn.Name()]; ok && fn.Pkg != nil && isVerifFile(in, fn) {
 		return h
@@ -285,6 +297,30 @@ func init() {
 		"vConc": func(in *Interp, st *State, fr *Frame, fn *ssa.Function, args []Value) Value {
 			t := args[0].(*Term)
 			return IntC(in.concretize(st, t, -1<<40, 1<<40))
+		},
+		// vLenAny(x any) int: length of the slice held in x
+		"vLenAny": func(in *Interp, st *State, fr *Frame, fn *ssa.Function, args []Value) Value {
+			sl, ok := args[0].(IfaceV).V.(SliceV)
+			if !ok {
+				panic(unsupported("vLenAny: not a slice"))
+			}
+			if sl.Obj < 0 {
+				return IntC(0)
+			}
+			return sl.Len
+		},
+		// vSwap(x any, i, j int): swap two elements of the slice held in x
+		"vSwap": func(in *Interp, st *State, fr *Frame, fn *ssa.Function, args []Value) Value {
+			sl, ok := args[0].(IfaceV).V.(SliceV)
+			if !ok || sl.Obj < 0 {
+				panic(unsupported("vSwap: not a slice"))
+			}
+			pi := PtrV{Obj: sl.Obj, Path: extPath(sl.Path, PathEl{Field: -1, Idx: Add(sl.Off, args[1].(*Term))})}
+			pj := PtrV{Obj: sl.Obj, Path: extPath(sl.Path, PathEl{Field: -1, Idx: Add(sl.Off, args[2].(*Term))})}
+			a, b := in.load(st, pi), in.load(st, pj)
+			in.store(st, pi, b)
+			in.store(st, pj, a)
+			return TupleV{}
 		},
 		// vInf() float64: +Inf
 		"vInf": func(in *Interp, st *State, fr *Frame, fn *ssa.Function, args []Value) Value {
